@@ -2,6 +2,7 @@
 //! yield points of reactive_graph driven by the case's schedule.
 mod ctl;
 mod exec;
+mod sc_audit;
 mod sc_await;
 mod sc_chan;
 mod sc_glitch;
@@ -24,6 +25,10 @@ fn c19(case: &Sexp) -> Sexp {
         16 => sc_guard::run_two_threads(case),
         17 => sc_guard::run_read_vs_store(case),
         18 => sc_guard::run_user_write(case),
+        23 => sc_audit::run_sig_arena(case),
+        27 => sc_audit::run_try_write(case),
+        29 => sc_audit::run_await_reload(case),
+        30 => sc_audit::run_dispose(case),
         2 => sc_chan::run(case),
         3 => sc_sig::run(case),
         4 => sc_glitch::run(case),
